@@ -299,6 +299,13 @@ def run(tier, seed):
             Na, Da = cay_int(pa, qa)
             norod = [pt for pt in paths if not any("rod" in st for st in pt)]
             near.append(dict(base, p=[0, 0, 0], q=0, N=matmul_int(Nd, Na), D=Dd * Da, path=list(rng.choice(norod))))
+    # cells with angles a few 1e-4 degrees from 90 (metric entries of 1e5: beyond TLC's 32-bit products, same unbounded-integer route),
+    # with general rotations: an angle "snapped" to 90 moves the lattice by 1e-5
+    for m_ in ([100000, 100000, 7, 0, 0, 1], [100000, 81, 100000, 0, 2, 0], [90000, 100000, 110000, 1, -1, 1], [100000, 100000, 100000, -1, 0, 0]):
+        for (pv, qv) in (([1, 2, -1], 3), ([2, -3, 1], 1), ([0, 0, 0], 1), ([1, 0, 0], 1)):
+            Nd, Dd = cay_int(pv, qv)
+            base = L.exact_metric_record(m_, [[1, 0, 0]], rng.choice(paths))
+            near.append(dict(base, p=list(pv), q=qv, N=Nd, D=Dd))
     recs = recs + near
     u2 = rng.uniform(0.3, 30.0)
     # consecutive nearly equal cells (a strained grain of the same phase): stale per-cell caches would show
